@@ -3,9 +3,9 @@ package sx
 // Go regular expressions -> SMT-LIB RegLan (byte semantics; see DESIGN.md).
 
 import (
-	"strconv"
 	"regexp"
 	"regexp/syntax"
+	"strconv"
 	"strings"
 	"sync"
 )
@@ -21,9 +21,9 @@ type compiledRe struct {
 	smt      string // full-match RegLan (with re.all padding where unanchored)
 	heavy    bool
 	// \A[class]{min,max}\z patterns can be decided from alphabet and length facts
-	classRep         *[256]bool
-	repMin, repMax   int
-	err      string
+	classRep       *[256]bool
+	repMin, repMax int
+	err            string
 }
 
 func compileRe(pattern string) *compiledRe {
@@ -327,6 +327,9 @@ func init() {
 		pat := rePat(fr, a[0])
 		s, ok := a[1].(string)
 		if !ok {
+			if r := fr.i.findSubmatchStructured(pat, a[1]); r != nil {
+				return r
+			}
 			unsup("FindStringSubmatch on symbolic string (%s)", pat)
 		}
 		m := compileRe(pat).goRe.FindStringSubmatch(s)
@@ -417,4 +420,61 @@ func (i *interpreter) undent(s value) value {
 		}
 	}
 	return out
+}
+
+// findSubmatchStructured handles `lit1(\d+)lit2.*` (unanchored) on inputs of
+// the shape  concrete(ending in lit1) ++ digits-only symbol ++ concrete(starting
+// with lit2) ++ anything-without-newline; returns nil if the shape does not fit.
+func (i *interpreter) findSubmatchStructured(pat string, s value) value {
+	re, err := syntax.Parse(pat, syntax.Perl)
+	if err != nil || re.Op != syntax.OpConcat || len(re.Sub) != 4 {
+		return nil
+	}
+	l1, g, l2, rest := re.Sub[0], re.Sub[1], re.Sub[2], re.Sub[3]
+	if l1.Op != syntax.OpLiteral || l2.Op != syntax.OpLiteral || g.Op != syntax.OpCapture || rest.Op != syntax.OpStar {
+		return nil
+	}
+	if g.Sub[0].Op != syntax.OpPlus || g.Sub[0].Sub[0].Op != syntax.OpCharClass || g.Sub[0].Sub[0].String() != `\d` && g.Sub[0].Sub[0].String() != `[0-9]` {
+		return nil
+	}
+	lit1, lit2 := string(l1.Rune), string(l2.Rune)
+	segs := segmentsOf(s)
+	if len(segs) < 3 {
+		return nil
+	}
+	c0, ok0 := segs[0].(string)
+	d, ok1 := segs[1].(*Sym)
+	c2, ok2 := segs[2].(string)
+	if !ok0 || !ok1 || !ok2 || !strings.HasSuffix(c0, lit1) || !strings.HasPrefix(c2, lit2) || strings.Contains(c0[:len(c0)-len(lit1)], lit1) {
+		return nil
+	}
+	p := i.path
+	a, ok := p.alpha[d.e]
+	if !ok {
+		return nil
+	}
+	for b := 0; b < 256; b++ {
+		if a[b] && (b < '0' || b > '9') {
+			return nil
+		}
+	}
+	lo, _ := p.ivOf(p.mkLen(d))
+	if lo == nil || lo.Sign() <= 0 {
+		return nil
+	}
+	// ".*" stops at a newline: the remaining segments must be newline free
+	for _, sg := range segs[2:] {
+		switch sg := sg.(type) {
+		case string:
+			if strings.Contains(sg, "\n") {
+				return nil
+			}
+		case *Sym:
+			if !p.noContain(sg.e, "\n") {
+				return nil
+			}
+		}
+	}
+	whole := mkConcat(mkConcat(lit1, d), concatOf(segs[2:]))
+	return []value{whole, d}
 }
